@@ -11,13 +11,79 @@ EXPLANATION = (
     "of the statement and the translation results with FRESH interpreters set to the same table.")
 
 
+BOGUS_KEYS = ['Xx', 'Zz', 'J', 'Q', 'A', 'c', 'n', 'cl', 'CL', 'CO', 'LrNh', 'NoLr', 'HHe', 'CC', 'C C', ' C', 'C ', 'C\n', 'Cc',
+              'Uue', 'D', 'T', 'X', 'R', 'Me', 'Ph', '*', '', 'C+', 'C-', 'C+-1', 'C+1+1', 'C1', '1C', 'C+1.0', 'C+１', '?+1',
+              'Fe+', 'Fe2+', '+1', 'C+0', 'C-0', 'C+01']
+
+
+def _key_sweep(ctx):
+    """every element symbol (independent table in spec/derivation.py), bare and with charges of one and two digits,
+    is a valid key: set -> get returns the same dict; every key that is not `element`, `element+n` or `element-n`
+    (n a positive integer) is rejected with ValueError and leaves the table as it was"""
+    import selfies as sf
+    from spec.derivation import ELEMENTS
+    bad, n = [], 0
+    sf.set_semantic_constraints('default')
+    for el in sorted(ELEMENTS):
+        t = {'?': 3, el: 2, el + '+1': 1, el + '-2': 4, el + '+12': 0}
+        n += 1
+        try:
+            sf.set_semantic_constraints(dict(t))
+            got = sf.get_semantic_constraints()
+        except Exception as e:
+            got = 'raised %r' % (e,)
+        if got != t and len(bad) < 4:
+            bad.append({'clause': 'C12:faithful-set-get', 'input': {'table': t},
+                        'detail': 'set_semantic_constraints(%r) then get_semantic_constraints() -> %r' % (t, got)})
+    sf.set_semantic_constraints('default')
+    before = sf.get_semantic_constraints()
+    for k in BOGUS_KEYS:
+        t = {'?': 3, 'C': 4, k: 2}
+        n += 1
+        try:
+            sf.set_semantic_constraints(dict(t))
+            r = 'accepted'
+        except ValueError:
+            r = None
+        except Exception as e:
+            r = 'raised %r, not ValueError' % (e,)
+        after = sf.get_semantic_constraints()
+        if (r or after != before) and len(bad) < 8:
+            bad.append({'clause': 'C12:rejects-invalid', 'input': {'table': t},
+                        'detail': 'key %r: %s; table afterwards %s' % (k, r or 'rejected', 'unchanged' if after == before
+                                                                       else 'CHANGED to %r' % (after,))})
+            sf.set_semantic_constraints('default')
+    sf.set_semantic_constraints('default')
+    return n, bad
+
+
 def floor(ctx):
     from harness import history
-    return history.floor(ctx, ID)
+    res = history.floor(ctx, ID)
+    n, bad = _key_sweep(ctx)
+    res['evaluations'] += n
+    res['violations'] += bad
+    res['rule'] += ('; plus every element symbol of an independent periodic table as key (bare, +1, -2, +12) and %d '
+                    'malformed keys' % len(BOGUS_KEYS))
+    return res
 
 
 def replay_input(d):
     from harness import history
+    if 'table' in d.get('input', {}):
+        import selfies as sf
+        t = d['input']['table']
+        sf.set_semantic_constraints('default')
+        try:
+            sf.set_semantic_constraints(dict(t))
+            got = sf.get_semantic_constraints()
+            ok = (got == t) if d['clause'] == 'C12:faithful-set-get' else False
+            detail = 'accepted; get -> %r' % (got,)
+        except ValueError as e:
+            ok = d['clause'] != 'C12:faithful-set-get'
+            detail = 'ValueError: %s' % e
+        sf.set_semantic_constraints('default')
+        return ok, detail
     return history.replay(d)
 
 
